@@ -216,6 +216,48 @@ const hawk_oocs_t* hawk_rtx_getsubsep (hawk_rtx_t* rtx)
 /* internal function to set a value to a global variable.
  * this function can handle a few special global variables that
  * require special treatment. */
+static int set_separator (hawk_rtx_t* rtx, hawk_val_t* val, int fs, void* code[2], hawk_oocs_t* text, hawk_bcs_t* btext)
+{
+	/* RS or FS is assigned. convert the value to a text once, here. what a
+	 * number converts to depends on CONVFMT and the readers and splitters
+	 * must go by the very text the regular expression is compiled from */
+	hawk_oocs_t t = { HAWK_NULL, 0 };
+	hawk_bcs_t b = { HAWK_NULL, 0 };
+	hawk_tre_t* rex = HAWK_NULL, * irex = HAWK_NULL;
+
+	if (HAWK_RTX_GETVALTYPE(rtx, val) != HAWK_VAL_NIL)
+	{
+		t.ptr = hawk_rtx_valtooocstrdup(rtx, val, &t.len);
+		if (HAWK_UNLIKELY(!t.ptr)) return -1;
+
+		b.ptr = hawk_rtx_valtobcstrdup(rtx, val, &b.len);
+		if (HAWK_UNLIKELY(!b.ptr)) goto oops;
+
+		/* it's a regular expression if it is longer than a character, or than
+		 * a byte for those that read bytes. however, FS is not a regular
+		 * expression if it's 5 character string beginning with a question mark. */
+		if ((t.len > 1 || b.len > 1) && !(fs && t.len == 5 && t.ptr[0] == '?'))
+		{
+			if (hawk_rtx_buildrex(rtx, t.ptr, t.len, &rex, &irex) <= -1) goto oops;
+		}
+	}
+
+	if (code[0]) hawk_rtx_freerex (rtx, code[0], code[1]);
+	code[0] = rex;
+	code[1] = irex;
+
+	if (text->ptr) hawk_rtx_freemem (rtx, text->ptr);
+	*text = t;
+	if (btext->ptr) hawk_rtx_freemem (rtx, btext->ptr);
+	*btext = b;
+	return 0;
+
+oops:
+	if (b.ptr) hawk_rtx_freemem (rtx, b.ptr);
+	if (t.ptr) hawk_rtx_freemem (rtx, t.ptr);
+	return -1;
+}
+
 static int set_global (hawk_rtx_t* rtx, int idx, hawk_nde_var_t* var, hawk_val_t* val, int assign)
 {
 	hawk_val_t* old;
@@ -363,36 +405,11 @@ static int set_global (hawk_rtx_t* rtx, int idx, hawk_nde_var_t* var, hawk_val_t
 
 		case HAWK_GBL_FS:
 		{
-			hawk_ooch_t* fs_ptr;
-			hawk_oow_t fs_len;
-
 			/* due to the expression evaluation rule, the
 			 * regular expression can not be an assigned value */
 			HAWK_ASSERT (vtype != HAWK_VAL_REX);
 
-			fs_ptr = hawk_rtx_getvaloocstr(rtx, val, &fs_len);
-			if (HAWK_UNLIKELY(!fs_ptr)) return -1;
-
-			if (fs_len > 1 && !(fs_len == 5 && fs_ptr[0] == '?'))
-			{
-				/* it's a regular expression if FS contains multiple characters.
-				 * however, it's not a regular expression if it's 5 character
-				 * string beginning with a question mark. */
-				hawk_tre_t* rex, * irex;
-
-				if (hawk_rtx_buildrex(rtx, fs_ptr, fs_len, &rex, &irex) <= -1)
-				{
-					hawk_rtx_freevaloocstr (rtx, val, fs_ptr);
-					return -1;
-				}
-
-				if (rtx->gbl.fs[0]) hawk_rtx_freerex (rtx, rtx->gbl.fs[0], rtx->gbl.fs[1]);
-
-				rtx->gbl.fs[0] = rex;
-				rtx->gbl.fs[1] = irex;
-			}
-
-			hawk_rtx_freevaloocstr (rtx, val, fs_ptr);
+			if (set_separator(rtx, val, 1, rtx->gbl.fs, &rtx->gbl.fstext, &rtx->gbl.fsbtext) <= -1) return -1;
 			break;
 		}
 
@@ -562,39 +579,12 @@ static int set_global (hawk_rtx_t* rtx, int idx, hawk_nde_var_t* var, hawk_val_t
 
 		case HAWK_GBL_RS:
 		{
-			hawk_oocs_t rss;
-
 			/* due to the expression evaluation rule, the
 			 * regular expression can not be an assigned
 			 * value */
 			HAWK_ASSERT (vtype != HAWK_VAL_REX);
 
-			rss.ptr = hawk_rtx_getvaloocstr(rtx, val, &rss.len);
-			if (!rss.ptr) return -1;
-
-			if (rtx->gbl.rs[0])
-			{
-				hawk_rtx_freerex (rtx, rtx->gbl.rs[0], rtx->gbl.rs[1]);
-				rtx->gbl.rs[0] = HAWK_NULL;
-				rtx->gbl.rs[1] = HAWK_NULL;
-			}
-
-			if (rss.len > 1)
-			{
-				hawk_tre_t* rex, * irex;
-
-				/* compile the regular expression */
-				if (hawk_rtx_buildrex(rtx, rss.ptr, rss.len, &rex, &irex) <= -1)
-				{
-					hawk_rtx_freevaloocstr (rtx, val, rss.ptr);
-					return -1;
-				}
-
-				rtx->gbl.rs[0] = rex;
-				rtx->gbl.rs[1] = irex;
-			}
-
-			hawk_rtx_freevaloocstr (rtx, val, rss.ptr);
+			if (set_separator(rtx, val, 0, rtx->gbl.rs, &rtx->gbl.rstext, &rtx->gbl.rsbtext) <= -1) return -1;
 			break;
 		}
 
@@ -1155,6 +1145,14 @@ static int init_rtx (hawk_rtx_t* rtx, hawk_t* hawk, hawk_rio_cbs_t* rio)
 	rtx->gbl.rs[1] = HAWK_NULL;
 	rtx->gbl.fs[0] = HAWK_NULL;
 	rtx->gbl.fs[1] = HAWK_NULL;
+	rtx->gbl.rstext.ptr = HAWK_NULL;
+	rtx->gbl.rstext.len = 0;
+	rtx->gbl.rsbtext.ptr = HAWK_NULL;
+	rtx->gbl.rsbtext.len = 0;
+	rtx->gbl.fstext.ptr = HAWK_NULL;
+	rtx->gbl.fstext.len = 0;
+	rtx->gbl.fsbtext.ptr = HAWK_NULL;
+	rtx->gbl.fsbtext.len = 0;
 	rtx->gbl.ignorecase = 0;
 	rtx->gbl.striprecspc = -1; /* means 'not set' */
 	rtx->gbl.stripstrspc = -1; /* means 'not set' */
@@ -1227,6 +1225,10 @@ static void fini_rtx (hawk_rtx_t* rtx, int fini_globals)
 		rtx->gbl.fs[0] = HAWK_NULL;
 		rtx->gbl.fs[1] = HAWK_NULL;
 	}
+	if (rtx->gbl.rstext.ptr) { hawk_rtx_freemem (rtx, rtx->gbl.rstext.ptr); rtx->gbl.rstext.ptr = HAWK_NULL; rtx->gbl.rstext.len = 0; }
+	if (rtx->gbl.rsbtext.ptr) { hawk_rtx_freemem (rtx, rtx->gbl.rsbtext.ptr); rtx->gbl.rsbtext.ptr = HAWK_NULL; rtx->gbl.rsbtext.len = 0; }
+	if (rtx->gbl.fstext.ptr) { hawk_rtx_freemem (rtx, rtx->gbl.fstext.ptr); rtx->gbl.fstext.ptr = HAWK_NULL; rtx->gbl.fstext.len = 0; }
+	if (rtx->gbl.fsbtext.ptr) { hawk_rtx_freemem (rtx, rtx->gbl.fsbtext.ptr); rtx->gbl.fsbtext.ptr = HAWK_NULL; rtx->gbl.fsbtext.len = 0; }
 
 	if (rtx->gbl.convfmt.ptr != HAWK_NULL &&
 	    rtx->gbl.convfmt.ptr != DEFAULT_CONVFMT)
